@@ -285,7 +285,8 @@ def probe(row, obj, v, vcls, idx, snap, acc, mode, extra=None):
         return None
     acc.hit(row.id + ":get")
     if exp == "bad":
-        acc.violation("accepts-out-of-domain:" + row.id, "%s = %s (%s) was accepted; reads %s" % (row.id, short(v), vcls, short(read(row, obj))), wit)
+        key = "accepts-undocumented-None:" if vcls == "None-not-documented" else "accepts-out-of-domain:"
+        acc.violation(key + row.id, "%s = %s (%s) was accepted; reads %s" % (row.id, short(v), vcls, short(read(row, obj))), wit)
         return None
     if exp == "either":
         acc.count("undocumented_values_accepted")
